@@ -43,12 +43,19 @@
                               tail reader opens it" (model: `vanish`, `hasFile`, `skipMissing` = the OpenFile-error branch):
                               total = bytes on disk + sizes of vanished files not yet reached; the reader's missing-file iteration
                               subtracts exactly that, so total = bytes on disk again once it has been through the waiting list
+   * `writing_file_is_records`, `failed_put_leaves_no_garbage`, `keepFile_resurrects_phantom` (SH/Lemmas/DiskCachePutFail.lean)
+                              fault "the body write of a put fails after k bytes" (model: `putFail`): the file that can still be
+                              appended to is always exactly the concatenation of its records, and after a failed put NO file can be
+                              appended to (the writing file is dropped), so the partial bytes stay a torn tail; seeded variant
+                              (keep writing to the same file) brings back a never-put second — `decide` witness.
+                              (`putFail` is not an `Op` of the history-level theorems: histories there contain no failed writes.)
   NOTHING of the property statement remains partial in Lean. Outside the theorems (assumptions, see checks/C09.py): I/O error
   branches, crc strength (parameter), prefix-preserving file system, increasing file names, flock, size rotation on real files.
 -/
 import SH.Lemmas.DiskCacheTornErase
 import SH.Lemmas.DiskCachePad
 import SH.Lemmas.DiskCacheLimits
+import SH.Lemmas.DiskCachePutFail
 import SH.Gen.C09
 
 namespace SH.C09
